@@ -6,3 +6,9 @@ import SkModel.Spec.Simple
 import SkModel.Spec.Sequence
 import SkModel.Proofs.Solo
 import SkModel.Store
+import SkModel.Seeker
+import SkModel.Spec.Lines
+import SkModel.Proofs.TaskProj
+import SkModel.Theorems.C01
+import SkModel.Proofs.SeqCore
+import SkModel.Theorems.C03
